@@ -160,4 +160,15 @@ theorem polarizer_ports_split (c s : ℝ) (h : c ^ 2 + s ^ 2 = 1) (e : J2 ℝ) (
     ring
   rw [e, h]; ring
 
+/-- A point `c + i s` of the unit circle: non-zero, inverse = conjugate. -/
+theorem unit_circle (c s : ℝ) (h : c ^ 2 + s ^ 2 = 1) :
+    (⟨c, s⟩ : ℂ) ≠ 0 ∧ (⟨c, s⟩ : ℂ)⁻¹ = ⟨c, -s⟩ ∧ (starRingEnd ℂ) (⟨c, s⟩ : ℂ) = (⟨c, s⟩ : ℂ)⁻¹ := by
+  have hn : Complex.normSq (⟨c, s⟩ : ℂ) = 1 := by rw [Complex.normSq_mk]; linarith
+  have h0 : (⟨c, s⟩ : ℂ) ≠ 0 := by
+    intro h0; rw [h0, Complex.normSq_zero] at hn; exact zero_ne_one hn
+  have hinv : (⟨c, s⟩ : ℂ)⁻¹ = ⟨c, -s⟩ := by
+    rw [Complex.inv_def, hn]; apply Complex.ext <;> simp
+  refine ⟨h0, hinv, ?_⟩
+  rw [hinv]; apply Complex.ext <;> simp
+
 end HcipyVerif.Jones
